@@ -221,12 +221,27 @@ func ZZ_C08_dkgNetwork() {
 		members = []int{0, 1, 2, 3}
 		thr = 3
 	}
+	// node 2 may be dropped from the network by this resharing (it stays reachable and is told so)
+	leaves := zz.Bool("epoch2.node2_leaves")
+	remaining, leaving := joiners, []*drand.Participant(nil)
+	accepting := []int{1, 2}
+	if leaves {
+		remaining, leaving = []*drand.Participant{w.parts[0], w.parts[1]}, []*drand.Participant{w.parts[2]}
+		accepting = []int{1}
+		if withJoiner {
+			members = []int{0, 1, 3}
+			thr = 2 + uint32(zz.Choose("epoch2.threshold_with_leaver", 2))
+		} else {
+			members = []int{0, 1}
+			thr = 2
+		}
+	}
 	propose := func(timeout time.Time) error {
 		return d.cmd(0, &drand.DKGCommand{Command: &drand.DKGCommand_Resharing{Resharing: &drand.ProposalOptions{Timeout: zzTS(timeout), Threshold: thr,
-			CatchupPeriodSeconds: 15, Remaining: joiners, Joining: newcomers}}})
+			CatchupPeriodSeconds: 15, Remaining: remaining, Leaving: leaving, Joining: newcomers}}})
 	}
 	zz.Assert("leader_proposes_a_resharing", propose(now.Add(time.Hour)) == nil)
-	if zz.Bool("epoch2.node2_rejects_first") {
+	if !leaves && zz.Bool("epoch2.node2_rejects_first") {
 		zz.Assert("member_rejects", d.cmd(2, &drand.DKGCommand{Command: &drand.DKGCommand_Reject{Reject: &drand.RejectOptions{}}}) == nil)
 		zz.Assert("leader_sees_the_rejection", len(d.state(0).Rejectors) == 1)
 		zz.Assert("leader_aborts", d.cmd(0, &drand.DKGCommand{Command: &drand.DKGCommand_Abort{Abort: &drand.AbortOptions{}}}) == nil)
@@ -236,7 +251,7 @@ func ZZ_C08_dkgNetwork() {
 		}
 		zz.Assert("leader_proposes_again_at_the_same_epoch", propose(now.Add(90*time.Minute)) == nil)
 	}
-	for _, i := range []int{1, 2} {
+	for _, i := range accepting {
 		zz.Assert("member_accepts", d.cmd(i, &drand.DKGCommand{Command: &drand.DKGCommand_Accept{Accept: &drand.AcceptOptions{}}}) == nil)
 	}
 	if withJoiner {
@@ -248,10 +263,18 @@ func ZZ_C08_dkgNetwork() {
 		zz.Assert("proposal_reaches_the_newcomer", d.state(3).State == Proposed && d.state(3).Epoch == 2)
 		zz.Assert("newcomer_joins", d.cmd(3, &drand.DKGCommand{Command: &drand.DKGCommand_Join{Join: &drand.JoinOptions{GroupFile: gf.Bytes()}}}) == nil)
 	}
-	zz.Assert("leader_collected_the_acceptances", len(d.state(0).Acceptors) == 2)
+	zz.Assert("leader_collected_the_acceptances", len(d.state(0).Acceptors) == len(accepting))
 	zz.Assert("leader_executes_the_resharing", d.cmd(0, &drand.DKGCommand{Command: &drand.DKGCommand_Execute{Execute: &drand.ExecutionOptions{}}}) == nil)
 	zz.Quiesce()
 	d.zzAgree("epoch2", 2, members)
+	if leaves {
+		// the node that was dropped knows it left, and keeps the epoch it completed
+		zz.Assert("dropped_node_records_that_it_left", d.state(2).State == Left && d.state(2).Epoch == 2)
+		f := d.finished(2)
+		zz.Assert("dropped_node_keeps_its_completed_epoch", f != nil && f.Epoch == 1 && f.State == Complete && bytes.Equal(f.FinalGroup.Hash(), g1.Hash()))
+		g := d.finished(0).FinalGroup
+		zz.Assert("dropped_node_is_not_in_the_new_group", g != nil && g.Find(w.pairs[2].Public) == nil)
+	}
 	g2 := d.finished(0).FinalGroup
 	if g2 != nil {
 		zz.Assert("resharing_keeps_genesis_time_seed_period_scheme_id", g2.GenesisTime == g1.GenesisTime && bytes.Equal(g2.GenesisSeed, g1.GenesisSeed) && g2.Period == g1.Period &&
